@@ -267,6 +267,18 @@ def nonempty(r: R) -> R:
 def to_dfa(r: R) -> DFA:
     if isinstance(r, Lang):
         return r.dfa
+    cached = getattr(r, "_dfa", None)
+    if cached is not None:
+        return cached
+    d = _to_dfa(r)
+    try:
+        r._dfa = d          # type: ignore[attr-defined]
+    except AttributeError:
+        pass
+    return d
+
+
+def _to_dfa(r: R) -> DFA:
     nfa = NFA()
     _build(nfa, r, nfa.start, nfa.accept)
 
